@@ -1,7 +1,69 @@
 (* Proofs/C20.v — lemmas and proofs for property C20 (CCB dial). *)
-From Coq Require Import List NArith ZArith Lia Bool.
+From Coq Require Import List NArith ZArith Lia Bool Arith.
+From Coq Require Import ZifyBool ZifyNat ZifyN.
 From Cedar Require Import Lib.Bytes gen.FactsC20 Model.CCB.
 Import ListNotations.
+
+(* ====================================================================== *)
+(* connect ids                                                             *)
+(* ====================================================================== *)
+
+Definition dec_digit (b : byte) : N :=
+  let n := b2n b in if (n <? 58)%N then (n - 48)%N else (n - 87)%N.
+
+Lemma dec_hexdigit n : (n < 16)%N -> dec_digit (hexdigit n) = n.
+Proof.
+  intro H.
+  assert (E : In n (map N.of_nat (seq 0 16))).
+  { replace n with (N.of_nat (N.to_nat n)) by lia. apply in_map, in_seq. lia. }
+  cbn in E. repeat (destruct E as [E|E]; [subst n; reflexivity|]). destruct E.
+Qed.
+
+Lemma hex_byte_inj a b : hex_byte a = hex_byte b -> a = b.
+Proof.
+  unfold hex_byte. intro H. inversion H as [[H1 H2]].
+  pose proof (b2n_lt a) as La. pose proof (b2n_lt b) as Lb.
+  assert (Ha1 : (b2n a / 16 < 16)%N) by (apply N.div_lt_upper_bound; lia).
+  assert (Hb1 : (b2n b / 16 < 16)%N) by (apply N.div_lt_upper_bound; lia).
+  assert (Ha2 : (b2n a mod 16 < 16)%N) by (apply N.mod_lt; lia).
+  assert (Hb2 : (b2n b mod 16 < 16)%N) by (apply N.mod_lt; lia).
+  apply (f_equal dec_digit) in H1. apply (f_equal dec_digit) in H2.
+  rewrite !dec_hexdigit in H1, H2 by assumption.
+  assert (E : b2n a = b2n b).
+  { rewrite (N.div_mod (b2n a) 16), (N.div_mod (b2n b) 16) by lia. rewrite H1, H2. reflexivity. }
+  rewrite <- (n2b_b2n a), <- (n2b_b2n b), E. reflexivity.
+Qed.
+
+Lemma hex_enc_length r : length (hex_enc r) = 2 * length r.
+Proof. induction r as [|x r IH]; simpl; [reflexivity|]. rewrite IH. lia. Qed.
+
+Lemma hex_enc_inj a : forall b, hex_enc a = hex_enc b -> a = b.
+Proof.
+  induction a as [|x a IH]; intros [|y b] H; try reflexivity.
+  - apply (f_equal (@length byte)) in H. rewrite !hex_enc_length in H. simpl in H. lia.
+  - apply (f_equal (@length byte)) in H. rewrite !hex_enc_length in H. simpl in H. lia.
+  - change (hex_byte x ++ hex_enc a = hex_byte y ++ hex_enc b) in H.
+    unfold hex_byte in H. cbn [app] in H. inversion H as [[H1 H2 H3]].
+    f_equal.
+    + apply hex_byte_inj. unfold hex_byte. rewrite H1, H2. reflexivity.
+    + apply IH. exact H3.
+Qed.
+
+Lemma connect_id_fresh r1 r2 : r1 <> r2 -> connect_id r1 <> connect_id r2.
+Proof. intros H E. apply H. apply hex_enc_inj. exact E. Qed.
+
+Lemma connect_id_length r : N.of_nat (length r) = 20%N -> lenN (connect_id r) = connect_id_hex_len.
+Proof.
+  intro H. rewrite lenN_spec. unfold connect_id. rewrite hex_enc_length.
+  unfold connect_id_hex_len. lia.
+Qed.
+
+Lemma connect_id_nonempty r : r <> [] -> connect_id r <> [].
+Proof. destruct r; [congruence|]. discriminate. Qed.
+
+(* ====================================================================== *)
+(* the matching rule                                                       *)
+(* ====================================================================== *)
 
 Lemma hello_matches_presents id g :
   hello_matches id g = true ->
@@ -10,4 +72,690 @@ Proof.
   destruct g as [cmd c| | |]; simpl; try discriminate.
   intro H. apply andb_true_iff in H as [H1 H2].
   apply Z.eqb_eq in H1. apply bytes_eqb_eq in H2. subst. eauto.
+Qed.
+
+(* with a non-empty id the hello really carried ClaimId = id as a string *)
+Lemma hello_matches_exact id g :
+  id <> [] -> hello_matches id g = true -> g = GHello ccb_reverse_connect (Some id).
+Proof.
+  intros Hne H. apply hello_matches_presents in H as (c & -> & E).
+  destruct c as [s|]; simpl in E; [subst; reflexivity|]. congruence.
+Qed.
+
+Lemma hello_matches_iff id g :
+  hello_matches id g = true <-> exists c, g = GHello ccb_reverse_connect c /\ ad_string c = id.
+Proof.
+  split; [apply hello_matches_presents|].
+  intros (c & -> & <-). unfold hello_matches. rewrite Z.eqb_refl. cbn [andb]. apply bytes_eqb_eq. reflexivity.
+Qed.
+
+(* one greeting cannot satisfy two different connect ids *)
+Lemma hello_matches_one_id id1 id2 g :
+  hello_matches id1 g = true -> hello_matches id2 g = true -> id1 = id2.
+Proof.
+  intros H1 H2. apply hello_matches_presents in H1 as (c1 & E1 & <-).
+  apply hello_matches_presents in H2 as (c2 & E2 & <-). congruence.
+Qed.
+
+(* ====================================================================== *)
+(* acceptReversed                                                          *)
+(* ====================================================================== *)
+
+(* the connections among a list of arrivals, in order *)
+Fixpoint conns_of (arr : list arrival) : list peer :=
+  match arr with
+  | [] => []
+  | AConn p _ :: r => p :: conns_of r
+  | _ :: r => conns_of r
+  end.
+
+Lemma conns_of_app a b : conns_of (a ++ b) = conns_of a ++ conns_of b.
+Proof. induction a as [|[p g|bl|] a IH]; simpl; rewrite ?IH; reflexivity. Qed.
+
+(* If the accept loop returns a connection, that connection's opening message
+   matched, it was not cancelled, everything before it was a non-matching
+   connection (or a harmless event) and exactly those connections were closed. *)
+Lemma accept_reversed_sound id : forall arr c p cl,
+  accept_reversed id c arr = (AccConn p, cl) ->
+  exists pre g post,
+    arr = pre ++ AConn p g :: post /\
+    hello_matches id g = true /\
+    cl = conns_of pre /\
+    (forall q g', In (AConn q g') pre -> hello_matches id g' = false).
+Proof.
+  induction arr as [|a arr IH]; intros c p cl H; simpl in H.
+  - discriminate.
+  - destruct a as [q g|bl|].
+    + destruct c; [discriminate|].
+      destruct (hello_matches id g) eqn:M.
+      * destruct g; try discriminate; inversion H; subst.
+        exists [], (GHello cmd claim), arr. repeat split; auto. intros ? ? [].
+      * assert (H' : (let '(res, cl0) := accept_reversed id false arr in (res, q :: cl0)) = (AccConn p, cl))
+          by (destruct g; try discriminate; exact H).
+        destruct (accept_reversed id false arr) as [res cl0] eqn:E.
+        inversion H'; subst.
+        destruct (IH false p cl0 E) as (pre & g0 & post & -> & Hm & -> & Hall).
+        exists (AConn q g :: pre), g0, post. repeat split; auto.
+        intros q' g' [Heq|Hin]; [inversion Heq; subst; exact M|eauto].
+    + destruct bl; [|discriminate].
+      destruct (IH true p cl H) as (pre & g0 & post & -> & Hm & -> & Hall).
+      (* after a cancellation nothing is ever returned: pre ++ ... is impossible *)
+      exfalso. clear - H.
+      revert H. generalize (pre ++ AConn p g0 :: post). intro l.
+      induction l as [|a l IHl]; simpl; [discriminate|].
+      destruct a as [q g|bl|]; try discriminate. destruct bl; [exact IHl|discriminate].
+    + discriminate.
+Qed.
+
+(* after the context is done nothing is returned any more *)
+Lemma accept_reversed_cancelled id arr p cl : accept_reversed id true arr <> (AccConn p, cl).
+Proof.
+  induction arr as [|a l IHl]; simpl; [discriminate|].
+  destruct a as [q g|bl|]; try discriminate. destruct bl; [exact IHl|discriminate].
+Qed.
+
+(* whatever the loop answers, every connection it closed had been accepted *)
+Lemma accept_reversed_closed_sub id : forall arr c res cl,
+  accept_reversed id c arr = (res, cl) -> incl cl (conns_of arr).
+Proof.
+  induction arr as [|a arr IH]; intros c res cl H; simpl in H.
+  - inversion H. apply incl_refl.
+  - destruct a as [q g|bl|]; simpl.
+    + destruct c. { inversion H; subst. intros x [<-|[]]. left; reflexivity. }
+      assert (D : (g = GStall /\ (res, cl) = (AccErr ECtx, [q])) \/
+                  (hello_matches id g = true /\ (res, cl) = (AccConn q, [])) \/
+                  (exists r0 c0, accept_reversed id false arr = (r0, c0) /\ (res, cl) = (r0, q :: c0))).
+      { destruct g; simpl in H; try (left; split; [reflexivity|congruence]);
+        try (destruct (Z.eqb cmd ccb_reverse_connect && bytes_eqb (ad_string claim) id) eqn:M; [right; left; split; [exact M|congruence]|]);
+        right; right; destruct (accept_reversed id false arr) as [r0 c0]; exists r0, c0; split; congruence. }
+      destruct D as [[_ E]|[[_ E]|(r0 & c0 & E0 & E)]]; inversion E; subst.
+      * intros x [<-|[]]. left; reflexivity.
+      * intros x [].
+      * intros x [<-|Hx]; [left; reflexivity|right; eapply IH; eauto].
+    + destruct bl; [eapply IH; eauto|inversion H; intros x []].
+    + inversion H; intros x [].
+Qed.
+
+(* ====================================================================== *)
+(* one standard-mode attempt                                               *)
+(* ====================================================================== *)
+
+Definition arrived (p : peer) (g : greeting) (h : list sev) : Prop := In (SArrive p g) h.
+
+(* the state of the accept goroutine says where a connection went *)
+Definition acc_holds (a : acc_state) (q : peer) : Prop :=
+  match a with
+  | AsStalled p => p = q
+  | AsDone (AccConn p) => p = q
+  | _ => False
+  end.
+
+Definition inv (id : bytes) (h : list sev) (a : att) : Prop :=
+  match a with
+  | Running s =>
+      (forall p, as_acc s = AsDone (AccConn p) ->
+         exists g, arrived p g h /\ hello_matches id g = true) /\
+      (forall q g, arrived q g h -> In q (as_closed s) \/ In q (as_backlog s) \/ acc_holds (as_acc s) q)
+  | Finished o =>
+      (forall p, o_res o = Returned p -> exists g, arrived p g h /\ hello_matches id g = true) /\
+      (forall q g, arrived q g h -> In q (o_closed o) \/ o_res o = Returned q)
+  end.
+
+Lemma inv_init id : inv id [] (Running att_init).
+Proof. split; [intros p H; discriminate|intros q g []]. Qed.
+
+Lemma arrived_snoc p g h e : arrived p g (h ++ [e]) <-> arrived p g h \/ e = SArrive p g.
+Proof.
+  unfold arrived. rewrite in_app_iff. simpl. intuition.
+Qed.
+
+Ltac inapp := repeat (rewrite in_app_iff in * ); simpl in *.
+
+Lemma inv_finish id h s res :
+  inv id h (Running s) ->
+  (forall p, res = Returned p -> as_acc s = AsDone (AccConn p)) ->
+  inv id h (Finished (finish s res)).
+Proof.
+  intros [I1 I2] Hres. split.
+  - intros p Hp. simpl in Hp. apply I1. apply Hres. exact Hp.
+  - intros q g Hq. simpl. destruct (I2 q g Hq) as [H|[H|H]].
+    + left. inapp. auto.
+    + left. inapp. auto.
+    + destruct (as_acc s) as [|p0|[p0|e|]] eqn:E; simpl in H; try contradiction; subst.
+      * left. inapp. auto.
+      * destruct res as [p1|e1].
+        -- right. specialize (Hres p1 eq_refl). inversion Hres. reflexivity.
+        -- left. inapp. auto.
+Qed.
+
+Lemma inv_step_finished id h o e : inv id h (Finished o) -> inv id (h ++ [e]) (att_step id (Finished o) e).
+Proof.
+  intros [I1 I2].
+  assert (Same : (forall p g, e <> SArrive p g) -> inv id (h ++ [e]) (Finished o)).
+  { intro Hne. split.
+    - intros p0 Hp0. destruct (I1 p0 Hp0) as (g0 & A & M). exists g0. split; [apply arrived_snoc; auto|exact M].
+    - intros q0 g0 Hq0. apply arrived_snoc in Hq0 as [Hq0|Hq0]; [eapply I2; eauto|exfalso; eapply Hne; eauto]. }
+  destruct e as [p g| | | |r|]; simpl; try (apply Same; discriminate).
+  split; simpl.
+  - intros p0 Hp0. destruct (I1 p0 Hp0) as (g0 & A & M). exists g0. split; [apply arrived_snoc; auto|exact M].
+  - intros q0 g0 Hq0. apply arrived_snoc in Hq0 as [Hq0|Hq0].
+    + destruct (I2 q0 g0 Hq0); [left; inapp; auto|auto].
+    + inversion Hq0; subst. left. inapp. auto.
+Qed.
+
+Lemma inv_step id h a e : inv id h a -> inv id (h ++ [e]) (att_step id a e).
+Proof.
+  intro I. destruct a as [s|o].
+  2:{ apply inv_step_finished. exact I. }
+  pose proof I as [I1 I2].
+  assert (Keep : forall s', as_acc s' = as_acc s -> as_closed s' = as_closed s -> as_backlog s' = as_backlog s ->
+                  (forall p g, e <> SArrive p g) -> inv id (h ++ [e]) (Running s')).
+  { intros s' E1 E2 E3 Hne. split.
+    - intros p Hp. rewrite E1 in Hp. destruct (I1 p Hp) as (g & A & M). exists g. split; [apply arrived_snoc; auto|exact M].
+    - intros q g Hq. apply arrived_snoc in Hq as [Hq|Hq]; [|exfalso; eapply Hne; eauto].
+      rewrite E1, E2, E3. eapply I2; eauto. }
+  assert (Fin : forall res, (forall p, res = Returned p -> as_acc s = AsDone (AccConn p)) ->
+                 (forall p g, e <> SArrive p g) -> inv id (h ++ [e]) (Finished (finish s res))).
+  { intros res Hres Hne. apply inv_finish; [|exact Hres].
+    apply (Keep s); auto. }
+  destruct e as [p g| | | |r|]; simpl.
+  - (* SArrive *)
+    destruct (as_acc s) as [|p0|r0] eqn:EA.
+    + destruct (as_ctx_done s) eqn:EC.
+      * split; simpl.
+        -- intros p1 Hp1. discriminate.
+        -- intros q g0 Hq. apply arrived_snoc in Hq as [Hq|Hq].
+           ++ destruct (I2 q g0 Hq) as [H|[H|H]]; [left; inapp; auto|auto|simpl in H; contradiction].
+           ++ inversion Hq; subst. left. inapp. auto.
+      * assert (NM : hello_matches id g = false ->
+                     inv id (h ++ [SArrive p g]) (Running (mkAtt AsWaiting (as_reply_open s) false (as_closed s ++ [p]) (as_backlog s)))).
+        { intro M. split; simpl.
+          - intros p1 Hp1. discriminate.
+          - intros q g0 Hq. apply arrived_snoc in Hq as [Hq|Hq].
+            + destruct (I2 q g0 Hq) as [H|[H|H]]; [left; inapp; auto|auto|simpl in H; contradiction].
+            + inversion Hq; subst. left. inapp. auto. }
+        destruct (hello_matches id g) eqn:M.
+        -- destruct g as [cmd c| | |]; try discriminate. split; simpl.
+           ++ intros p1 Hp1. inversion Hp1; subst. exists (GHello cmd c). split; [apply arrived_snoc; auto|exact M].
+           ++ intros q g0 Hq. apply arrived_snoc in Hq as [Hq|Hq].
+              ** destruct (I2 q g0 Hq) as [H|[H|H]]; [auto|auto|simpl in H; contradiction].
+              ** inversion Hq; subst. right; right. reflexivity.
+        -- destruct g as [cmd c| | |]; try (apply NM; reflexivity).
+           split; simpl.
+           ++ intros p1 Hp1. discriminate.
+           ++ intros q g0 Hq. apply arrived_snoc in Hq as [Hq|Hq].
+              ** destruct (I2 q g0 Hq) as [H|[H|H]]; [auto|auto|simpl in H; contradiction].
+              ** inversion Hq; subst. right; right. reflexivity.
+    + split; simpl.
+      * intros p1 Hp1. discriminate.
+      * intros q g0 Hq. apply arrived_snoc in Hq as [Hq|Hq].
+        -- destruct (I2 q g0 Hq) as [H|[H|H]]; [auto|right; left; inapp; auto|simpl in H; auto].
+        -- inversion Hq; subst. right; left. inapp. auto.
+    + split; simpl.
+      * intros p1 Hp1. destruct (I1 p1 Hp1) as (g1 & A & M). exists g1. split; [apply arrived_snoc; auto|exact M].
+      * intros q g0 Hq. apply arrived_snoc in Hq as [Hq|Hq].
+        -- destruct (I2 q g0 Hq) as [H|[H|H]]; [auto|right; left; inapp; auto|simpl in H; auto].
+        -- inversion Hq; subst. right; left. inapp. auto.
+  - (* SListenErr *)
+    destruct (as_acc s) as [|p0|r0] eqn:EA; try (apply (Keep s); auto; discriminate).
+    split; simpl.
+    + intros p1 Hp1. discriminate.
+    + intros q g0 Hq. apply arrived_snoc in Hq as [Hq|Hq]; [|discriminate].
+      destruct (I2 q g0 Hq) as [H|[H|H]]; [auto|auto|simpl in H; contradiction].
+  - (* SCtxDone *)
+    destruct (as_acc s) as [|p0|r0] eqn:EA.
+    + apply Keep; simpl; auto; discriminate.
+    + split; simpl.
+      * intros p1 Hp1. discriminate.
+      * intros q g0 Hq. apply arrived_snoc in Hq as [Hq|Hq]; [|discriminate].
+        destruct (I2 q g0 Hq) as [H|[H|H]]; [left; inapp; auto|auto|].
+        simpl in H. subst. left. inapp. auto.
+    + apply Keep; simpl; auto; discriminate.
+  - (* SPickAccept *)
+    destruct (as_acc s) as [|p0|[p0|[|]|]] eqn:EA;
+      try (apply (Keep s); auto; discriminate).
+    + apply Fin; [|discriminate]. intros p1 Hp1. inversion Hp1; subst. reflexivity.
+    + apply Fin; [|discriminate]. intros p1 Hp1. discriminate.
+    + apply Fin; [|discriminate]. intros p1 Hp1. discriminate.
+  - (* SPickReply *)
+    destruct (as_reply_open s); [|apply (Keep s); auto; discriminate].
+    destruct (as_ctx_done s).
+    + apply Fin; [|discriminate]. intros p1 Hp1. discriminate.
+    + destruct r.
+      * apply Keep; simpl; auto; discriminate.
+      * apply Fin; [|discriminate]. intros p1 Hp1. discriminate.
+      * apply Fin; [|discriminate]. intros p1 Hp1. discriminate.
+  - (* SPickDone *)
+    destruct (as_ctx_done s); [|apply (Keep s); auto; discriminate].
+    apply Fin; [|discriminate]. intros p1 Hp1. discriminate.
+Qed.
+
+Lemma inv_run id : forall sched h a,
+  inv id h a -> inv id (h ++ sched) (run_attempt_from id a sched).
+Proof.
+  induction sched as [|e sched IH]; intros h a I; simpl.
+  - rewrite app_nil_r. exact I.
+  - replace (h ++ e :: sched) with ((h ++ [e]) ++ sched) by (rewrite <- app_assoc; reflexivity).
+    apply IH. apply inv_step. exact I.
+Qed.
+
+Lemma inv_run_attempt id sched : inv id sched (run_attempt id sched).
+Proof. apply (inv_run id sched [] (Running att_init)). apply inv_init. Qed.
+
+(* the arrivals of a schedule, in order *)
+Fixpoint arrivals (s : list sev) : list (peer * greeting) :=
+  match s with
+  | [] => []
+  | SArrive p g :: r => (p, g) :: arrivals r
+  | _ :: r => arrivals r
+  end.
+
+Lemma in_arrivals p g s : In (p, g) (arrivals s) <-> In (SArrive p g) s.
+Proof.
+  induction s as [|e s IH]; simpl; [tauto|].
+  destruct e as [q g'| | | |r|]; simpl; rewrite IH; split; intro H;
+    try (destruct H as [H|H]; [discriminate|exact H]); try (right; exact H).
+  - destruct H as [H|H]; [inversion H; subst; left; reflexivity|right; exact H].
+  - destruct H as [H|H]; [inversion H; subst; left; reflexivity|right; exact H].
+Qed.
+
+(* C20_only_matching, standard mode *)
+Lemma attempt_only_matching id sched o :
+  run_attempt id sched = Finished o ->
+  (forall p, o_res o = Returned p ->
+     exists g, In (SArrive p g) sched /\ hello_matches id g = true) /\
+  (forall q g, In (SArrive q g) sched -> In q (o_closed o) \/ o_res o = Returned q).
+Proof.
+  intro H. pose proof (inv_run_attempt id sched) as I. rewrite H in I. exact I.
+Qed.
+
+Lemma NoDup_fst_inj {A B} (l : list (A * B)) a b1 b2 :
+  NoDup (map fst l) -> In (a, b1) l -> In (a, b2) l -> b1 = b2.
+Proof.
+  induction l as [|[x y] l IH]; simpl; intros ND H1 H2; [contradiction|].
+  inversion ND as [|? ? Hn ND']; subst.
+  destruct H1 as [H1|H1], H2 as [H2|H2].
+  - congruence.
+  - inversion H1; subst. exfalso. apply Hn. apply (in_map fst) in H2. exact H2.
+  - inversion H2; subst. exfalso. apply Hn. apply (in_map fst) in H1. exact H1.
+  - eauto.
+Qed.
+
+(* with distinct connection labels: a connection whose greeting does not match
+   is closed and is not the one returned *)
+Lemma attempt_nonmatching_closed id sched o q g :
+  run_attempt id sched = Finished o ->
+  NoDup (map fst (arrivals sched)) ->
+  In (SArrive q g) sched -> hello_matches id g = false ->
+  In q (o_closed o) /\ o_res o <> Returned q.
+Proof.
+  intros H ND Hin M. destruct (attempt_only_matching id sched o H) as [A B].
+  assert (NR : o_res o <> Returned q).
+  { intro R. destruct (A q R) as (g' & Hin' & M').
+    assert (g = g') by (eapply NoDup_fst_inj; [exact ND| |]; apply in_arrivals; eassumption).
+    subst. congruence. }
+  split; [|exact NR]. destruct (B q g Hin); [assumption|contradiction].
+Qed.
+
+(* ---- stability of a finished attempt --------------------------------------- *)
+
+Lemma finished_stable id sched : forall o,
+  exists o', run_attempt_from id (Finished o) sched = Finished o' /\ o_res o' = o_res o.
+Proof.
+  induction sched as [|e sched IH]; intro o; simpl.
+  - eauto.
+  - destruct e; simpl; try apply IH.
+    destruct (IH (mkOut (o_res o) (o_closed o ++ [p]))) as (o' & E & R). eauto.
+Qed.
+
+Lemma run_attempt_app id s1 s2 :
+  run_attempt id (s1 ++ s2) = run_attempt_from id (run_attempt id s1) s2.
+Proof. unfold run_attempt, run_attempt_from. apply fold_left_app. Qed.
+
+(* C20_broker_failure: a failure reply taken while the attempt is still waiting
+   (reply channel still selected on, context not done) ends it with that error,
+   whatever arrives afterwards *)
+Lemma attempt_broker_failure id s1 m s2 st :
+  run_attempt id s1 = Running st ->
+  as_reply_open st = true -> as_ctx_done st = false ->
+  exists o, run_attempt id (s1 ++ SPickReply (RFail m) :: s2) = Finished o /\
+            o_res o = Failed (AeBroker m).
+Proof.
+  intros H RO CD. rewrite run_attempt_app, H. simpl. rewrite RO, CD.
+  destruct (finished_stable id s2 (finish st (Failed (AeBroker m)))) as (o' & E & R).
+  exists o'. split; [exact E|]. rewrite R. reflexivity.
+Qed.
+
+(* events that cannot end the wait nor consume the reply: non-matching
+   arrivals and (disabled) accept picks *)
+Definition quiet_ev (id : bytes) (e : sev) : bool :=
+  match e with
+  | SArrive _ g => negb (hello_matches id g)
+  | SPickAccept => true
+  | _ => false
+  end.
+
+Definition waiting (s : att_state) : Prop :=
+  (as_acc s = AsWaiting \/ exists p, as_acc s = AsStalled p) /\
+  as_reply_open s = true /\ as_ctx_done s = false.
+
+Lemma quiet_keeps_waiting id : forall s1 st,
+  waiting st -> forallb (quiet_ev id) s1 = true ->
+  exists st', run_attempt_from id (Running st) s1 = Running st' /\ waiting st'.
+Proof.
+  induction s1 as [|e s1 IH]; intros st W Q; simpl.
+  - eauto.
+  - simpl in Q. apply andb_true_iff in Q as [Qe Q].
+    destruct W as (WA & WR & WC).
+    destruct e as [p g| | | |r|]; simpl in Qe; try discriminate.
+    + apply negb_true_iff in Qe. simpl.
+      destruct WA as [WA|[p0 WA]]; rewrite WA.
+      * rewrite WC. destruct g as [cmd c| | |]; simpl in Qe |- *; rewrite ?Qe;
+          apply IH; auto; (split; [simpl; eauto|split; simpl; auto]).
+      * apply IH; auto. split; [simpl; eauto|split; simpl; auto].
+    + simpl. destruct WA as [WA|[p0 WA]]; rewrite WA; apply IH; auto; (split; [eauto|auto]).
+Qed.
+
+Lemma attempt_broker_failure_before_match id s1 m s2 :
+  forallb (quiet_ev id) s1 = true ->
+  exists o, run_attempt id (s1 ++ SPickReply (RFail m) :: s2) = Finished o /\
+            o_res o = Failed (AeBroker m).
+Proof.
+  intro Q.
+  destruct (quiet_keeps_waiting id s1 att_init) as (st & E & (WA & WR & WC)); auto.
+  { split; [left; reflexivity|split; reflexivity]. }
+  eapply attempt_broker_failure; eauto.
+Qed.
+
+(* ====================================================================== *)
+(* proxied mode                                                            *)
+(* ====================================================================== *)
+
+Lemma proxy_request_sound id rep hello :
+  proxy_request id rep hello = None -> rep = PrOk /\ hello_matches id hello = true.
+Proof.
+  destruct rep; simpl; try discriminate.
+  destruct hello as [cmd c| | |]; simpl; try discriminate.
+  destruct (Z.eqb cmd ccb_reverse_connect); simpl; [|discriminate].
+  destruct (bytes_eqb (ad_string c) id); [auto|discriminate].
+Qed.
+
+Lemma proxy_attempt_only_matching id b rep hello p :
+  o_res (proxy_attempt id b rep hello) = Returned p ->
+  p = b /\ rep = PrOk /\ hello_matches id hello = true /\ o_closed (proxy_attempt id b rep hello) = [].
+Proof.
+  unfold proxy_attempt. destruct (proxy_request id rep hello) eqn:E; simpl; [discriminate|].
+  intro H. inversion H; subst. apply proxy_request_sound in E as [E1 E2]. auto.
+Qed.
+
+Lemma proxy_attempt_failure_closes id b rep hello e :
+  o_res (proxy_attempt id b rep hello) = Failed e -> o_closed (proxy_attempt id b rep hello) = [b].
+Proof.
+  unfold proxy_attempt. destruct (proxy_request id rep hello); simpl; [reflexivity|discriminate].
+Qed.
+
+Lemma proxy_broker_failure id b m hello :
+  proxy_attempt id b (PrFail m) hello = mkOut (Failed (AeProxyRefused m)) [b].
+Proof. reflexivity. Qed.
+
+(* ====================================================================== *)
+(* Dial: several brokers, one winner                                       *)
+(* ====================================================================== *)
+
+Definition dinv (results : list (option outcome)) (d : dial) : Prop :=
+  match d with
+  | DRunning s => d_next s <= length results /\ (forall i, In i (d_reported s) -> i < d_next s)
+  | DDone r launched reported =>
+      launched <= length results /\
+      (forall i, In i reported -> i < launched) /\
+      match r with
+      | DReturned i p =>
+          In i reported /\
+          exists o, nth_error results i = Some (Some o) /\ o_res o = Returned p
+      | _ => True
+      end
+  end.
+
+Lemma mem_nat_true i l : mem_nat i l = true <-> In i l.
+Proof.
+  unfold mem_nat. rewrite existsb_exists. split.
+  - intros (x & Hx & E). apply Nat.eqb_eq in E. subst. exact Hx.
+  - intro H. exists i. split; [exact H|apply Nat.eqb_refl].
+Qed.
+
+Lemma dinv_step seqm results d e : dinv results d -> dinv results (dial_step seqm results d e).
+Proof.
+  intro I. destruct d as [s|r l rep]; [|exact I].
+  destruct I as [I1 I2].
+  destruct e as [i| |]; simpl.
+  - destruct (Nat.ltb i (d_next s) && negb (mem_nat i (d_reported s))) eqn:G; [|split; assumption].
+    apply andb_true_iff in G as [G1 G2]. apply Nat.ltb_lt in G1.
+    destruct (nth_error results i) as [[o|]|] eqn:N; try (split; assumption).
+    destruct (o_res o) as [p|err] eqn:R.
+    + simpl. split; [exact I1|]. split.
+      * intros j [<-|Hj]; [exact G1|auto].
+      * split; [left; reflexivity|]. exists o. auto.
+    + destruct (Nat.ltb (d_next s) (length results)) eqn:L.
+      * apply Nat.ltb_lt in L. simpl. split; [lia|].
+        intros j [<-|Hj]; [lia|]. specialize (I2 j Hj). lia.
+      * match goal with |- dinv _ (if ?c then _ else _) => destruct c end.
+        -- simpl. split; [exact I1|]. split; [|exact I].
+           intros j [<-|Hj]; [exact G1|auto].
+        -- simpl. split; [exact I1|]. intros j [<-|Hj]; [exact G1|auto].
+  - destruct (negb seqm && Nat.ltb (d_next s) (length results)) eqn:G; [|split; assumption].
+    apply andb_true_iff in G as [_ G]. apply Nat.ltb_lt in G. simpl. split; [lia|].
+    intros j Hj. specialize (I2 j Hj). lia.
+  - simpl. split; [exact I1|]. split; [exact I2|exact I].
+Qed.
+
+Lemma dinv_run seqm results : forall sched d,
+  dinv results d -> dinv results (fold_left (dial_step seqm results) sched d).
+Proof.
+  induction sched as [|e sched IH]; intros d I; simpl; [exact I|].
+  apply IH. apply dinv_step. exact I.
+Qed.
+
+Lemma dinv_run_dial seqm results sched : dinv results (run_dial seqm results sched).
+Proof.
+  unfold run_dial. destruct results as [|r results].
+  - simpl. split; [lia|]. split; [intros i []|exact I].
+  - apply dinv_run. simpl. split; [lia|intros i []].
+Qed.
+
+(* the connection Dial returns is the connection returned by one launched attempt *)
+Lemma dial_winner seqm results sched i p launched reported :
+  run_dial seqm results sched = DDone (DReturned i p) launched reported ->
+  i < launched /\ launched <= length results /\
+  exists o, nth_error results i = Some (Some o) /\ o_res o = Returned p.
+Proof.
+  intro H. pose proof (dinv_run_dial seqm results sched) as I. rewrite H in I.
+  destruct I as (I1 & I2 & I3 & I4). split; [apply I2; exact I3|]. split; assumption.
+Qed.
+
+Lemma losers_from_spec : forall results k launched reported q,
+  In q (losers_from k launched reported results) <->
+  exists j o, nth_error results j = Some (Some o) /\ o_res o = Returned q /\
+              k + j < launched /\ ~ In (k + j) reported.
+Proof.
+  induction results as [|r results IH]; intros k launched reported q; simpl.
+  - split; [intros []|intros (j & o & N & _)]. destruct j; discriminate.
+  - split.
+    + intro H.
+      destruct (Nat.ltb k launched && negb (mem_nat k reported)) eqn:G.
+      * apply andb_true_iff in G as [G1 G2]. apply Nat.ltb_lt in G1.
+        apply negb_true_iff in G2.
+        assert (NR : ~ In k reported) by (intro X; apply mem_nat_true in X; congruence).
+        assert (Tl : In q (losers_from (S k) launched reported results) ->
+                     exists j o, nth_error (r :: results) j = Some (Some o) /\ o_res o = Returned q /\
+                                 k + j < launched /\ ~ In (k + j) reported).
+        { intro T. apply IH in T as (j & o & N & R & L & NI). exists (S j), o. simpl.
+          replace (k + S j) with (S k + j) by lia. auto. }
+        destruct r as [o|]; [|auto].
+        destruct (o_res o) as [p|e] eqn:R; [|auto].
+        destruct H as [<-|H]; [|auto].
+        exists 0, o. simpl. rewrite Nat.add_0_r. auto.
+      * apply IH in H as (j & o & N & R & L & NI). exists (S j), o. simpl.
+        replace (k + S j) with (S k + j) by lia. auto.
+    + intros (j & o & N & R & L & NI).
+      destruct j as [|j].
+      * simpl in N. inversion N; subst. rewrite Nat.add_0_r in *.
+        assert (G : Nat.ltb k launched && negb (mem_nat k reported) = true).
+        { apply andb_true_iff. split; [apply Nat.ltb_lt; exact L|].
+          apply negb_true_iff. destruct (mem_nat k reported) eqn:M; [|reflexivity].
+          apply mem_nat_true in M. contradiction. }
+        rewrite G, R. left. reflexivity.
+      * simpl in N.
+        assert (T : In q (losers_from (S k) launched reported results)).
+        { apply IH. exists j, o. replace (S k + j) with (k + S j) by lia. auto. }
+        destruct (Nat.ltb k launched && negb (mem_nat k reported)); [|exact T].
+        destruct r as [o0|]; [|exact T]. destruct (o_res o0); [right|]; exact T.
+Qed.
+
+(* every other launched attempt that also obtained a connection has it closed *)
+Lemma dial_losers_closed seqm results sched r launched reported j o q :
+  run_dial seqm results sched = DDone r launched reported ->
+  j < launched -> ~ In j reported ->
+  nth_error results j = Some (Some o) -> o_res o = Returned q ->
+  In q (dial_drained results (run_dial seqm results sched)).
+Proof.
+  intros H L NI N R. rewrite H. simpl. apply losers_from_spec.
+  exists j, o. simpl. auto.
+Qed.
+
+Lemma attempt_outcomes_nth atts i o :
+  nth_error (attempt_outcomes atts) i = Some (Some o) ->
+  exists id sched, nth_error atts i = Some (id, sched) /\ run_attempt id sched = Finished o.
+Proof.
+  unfold attempt_outcomes. rewrite nth_error_map.
+  destruct (nth_error atts i) as [[id sched]|]; simpl; [|discriminate].
+  intro H. inversion H as [H1]. exists id, sched. split; [reflexivity|].
+  destruct (run_attempt id sched); simpl in H1; [discriminate|congruence].
+Qed.
+
+(* attempts whose result was taken, other than a winner, all delivered a failure *)
+Definition failed_reports (results : list (option outcome)) (d : dial) : Prop :=
+  match d with
+  | DRunning s => forall k, In k (d_reported s) ->
+      exists ok e, nth_error results k = Some (Some ok) /\ o_res ok = Failed e
+  | DDone r _ rep => forall k, In k rep -> (forall p, r <> DReturned k p) ->
+      exists ok e, nth_error results k = Some (Some ok) /\ o_res ok = Failed e
+  end.
+
+Lemma failed_reports_step seqm results d e :
+  failed_reports results d -> failed_reports results (dial_step seqm results d e).
+Proof.
+  intro Hd. destruct d as [s|r l rep]; [|exact Hd].
+  destruct e as [k| |]; cbn [dial_step].
+  - destruct (Nat.ltb k (d_next s) && negb (mem_nat k (d_reported s))); [|exact Hd].
+    destruct (nth_error results k) as [[ok|]|] eqn:Nk; try exact Hd.
+    destruct (o_res ok) as [pk|ek] eqn:Rk.
+    + intros k' [<-|Hk'] Hw; [exfalso; eapply Hw; reflexivity|apply Hd; exact Hk'].
+    + assert (New : forall k', In k' (k :: d_reported s) ->
+                  exists ok0 e0, nth_error results k' = Some (Some ok0) /\ o_res ok0 = Failed e0).
+      { intros k' [<-|Hk']; [eauto|apply Hd; exact Hk']. }
+      destruct (Nat.ltb (d_next s) (length results)); [exact New|].
+      match goal with |- failed_reports _ (if ?c then _ else _) => destruct c end;
+        [intros k' Hk' _; apply New; exact Hk'|exact New].
+  - destruct (negb seqm && Nat.ltb (d_next s) (length results)); exact Hd.
+  - intros k Hk _. apply Hd. exact Hk.
+Qed.
+
+Lemma failed_reports_run seqm results : forall sched d,
+  failed_reports results d -> failed_reports results (fold_left (dial_step seqm results) sched d).
+Proof.
+  induction sched as [|e sched IH]; intros d Hd; simpl; [exact Hd|].
+  apply IH. apply failed_reports_step. exact Hd.
+Qed.
+
+Lemma failed_reports_run_dial seqm results sched : failed_reports results (run_dial seqm results sched).
+Proof.
+  unfold run_dial. destruct results as [|r results].
+  - intros k [].
+  - apply failed_reports_run. intros k [].
+Qed.
+
+(* C20_single_winner *)
+Lemma dial_full_single_winner seqm atts sched i p launched reported :
+  dial_full seqm atts sched = DDone (DReturned i p) launched reported ->
+  (* the winner: attempt i, launched, and p presented attempt i's own id there *)
+  (exists id s g, nth_error atts i = Some (id, s) /\ i < launched /\
+                  In (SArrive p g) s /\ hello_matches id g = true) /\
+  (* every other launched attempt that accepted a connection: closed, never handed out *)
+  (forall j idj sj oj q, j <> i -> j < launched ->
+     nth_error atts j = Some (idj, sj) -> run_attempt idj sj = Finished oj -> o_res oj = Returned q ->
+     In q (dial_drained (attempt_outcomes atts) (dial_full seqm atts sched))).
+Proof.
+  unfold dial_full. intro H.
+  pose proof (dinv_run_dial seqm (attempt_outcomes atts) sched) as I. rewrite H in I.
+  destruct I as (I1 & I2 & I3 & (o & N & R)).
+  split.
+  - apply attempt_outcomes_nth in N as (id & s & N & E).
+    destruct (attempt_only_matching id s o E) as [A _]. destruct (A p R) as (g & Hin & M).
+    exists id, s, g. repeat split; auto.
+  - intros j idj sj oj q Hne L Nj Ej Rj.
+    assert (Nj' : nth_error (attempt_outcomes atts) j = Some (Some oj)).
+    { unfold attempt_outcomes. rewrite nth_error_map, Nj. simpl. rewrite Ej. reflexivity. }
+    (* the only attempt whose Returned result was taken is i *)
+    assert (NI : ~ In j reported).
+    { pose proof (failed_reports_run_dial seqm (attempt_outcomes atts) sched) as F.
+      rewrite H in F. intro Hin.
+      destruct (F j Hin) as (ok & e & Nk & Re).
+      - intros p0 E0. inversion E0. congruence.
+      - rewrite Nj' in Nk. inversion Nk; subst. congruence. }
+    rewrite H. simpl. apply losers_from_spec. exists j, oj. simpl. auto.
+Qed.
+
+(* what Dial hands to its caller *)
+Definition dial_handed (d : dial) : list peer :=
+  match d with DDone (DReturned _ p) _ _ => [p] | _ => [] end.
+
+Lemma dial_at_most_one d : length (dial_handed d) <= 1.
+Proof. destruct d as [s|[i p|errs|] l r]; simpl; lia. Qed.
+
+(* ---- statements exported by Props/C20.v (glue) ---- *)
+
+Lemma connect_id_length_nonempty : forall r : bytes,
+  N.of_nat (length r) = 20%N -> lenN (connect_id r) = connect_id_hex_len /\ connect_id r <> [].
+Proof.
+  intros r H. split; [apply connect_id_length; exact H|].
+  apply connect_id_nonempty. intro E. subst. discriminate.
+Qed.
+
+Lemma attempt_only_matching_full : forall id sched o,
+  run_attempt id sched = Finished o ->
+  (forall p, o_res o = Returned p ->
+     exists g, In (SArrive p g) sched /\ hello_matches id g = true) /\
+  (forall q g, In (SArrive q g) sched -> In q (o_closed o) \/ o_res o = Returned q) /\
+  (NoDup (map fst (arrivals sched)) ->
+   forall q g, In (SArrive q g) sched -> hello_matches id g = false ->
+     In q (o_closed o) /\ o_res o <> Returned q).
+Proof.
+  intros id sched o H. destruct (attempt_only_matching id sched o H) as [A B].
+  split; [exact A|]. split; [exact B|].
+  intros ND q g Hin M. eapply attempt_nonmatching_closed; eauto.
+Qed.
+
+Lemma proxy_only_matching_full : forall id b rep hello,
+  (forall p, o_res (proxy_attempt id b rep hello) = Returned p ->
+     p = b /\ rep = PrOk /\ hello_matches id hello = true) /\
+  (forall e, o_res (proxy_attempt id b rep hello) = Failed e ->
+     o_closed (proxy_attempt id b rep hello) = [b]).
+Proof.
+  intros id b rep hello. split.
+  - intros p H. destruct (proxy_attempt_only_matching id b rep hello p H) as (A & B & C & _). auto.
+  - intros e H. eapply proxy_attempt_failure_closes; eauto.
+Qed.
+
+Lemma dial_single_winner_full : forall sequential atts sched i p launched reported,
+  dial_full sequential atts sched = DDone (DReturned i p) launched reported ->
+  (exists id s g, nth_error atts i = Some (id, s) /\ i < launched /\
+                  In (SArrive p g) s /\ hello_matches id g = true) /\
+  length (dial_handed (dial_full sequential atts sched)) <= 1 /\
+  (forall j idj sj oj q, j <> i -> j < launched ->
+     nth_error atts j = Some (idj, sj) -> run_attempt idj sj = Finished oj -> o_res oj = Returned q ->
+     In q (dial_drained (attempt_outcomes atts) (dial_full sequential atts sched))).
+Proof.
+  intros sq atts sched i p l r H.
+  destruct (dial_full_single_winner sq atts sched i p l r H) as [A B].
+  split; [exact A|]. split; [apply dial_at_most_one|exact B].
 Qed.
